@@ -2,6 +2,7 @@ package props
 
 import (
 	"fmt"
+	"runtime"
 	"sync/atomic"
 
 	"github.com/RoaringBitmap/roaring/v2"
@@ -72,6 +73,7 @@ func runC14(c *Ctx) {
 	p1 := &explore.Product{Name: "corpus states", Dims: []int{len(corpus)}, Deadline: c.Budget(20, 300),
 		Run: func(idx []int) (string, *ev.Fail) {
 			b := corpus[idx[0]].Build()
+			defer runtime.KeepAlive(b)
 			return fmt.Sprint(b.B.GetSerializedSizeInBytes() % 7), sizeBound("corpus state", b.B, b.M)
 		}, Describe: func(idx []int) any { return corpus[idx[0]].Name }}
 	l1 := l1Pool(1, q)
@@ -81,6 +83,8 @@ func runC14(c *Ctx) {
 	p2 := &explore.Product{Name: "results of binary operations", Dims: []int{len(pool), len(pool), 4}, Deadline: c.Budget(60, 900), Execs: &execs,
 		Run: func(idx []int) (string, *ev.Fail) {
 			a, b := pool[idx[0]].Build(), pool[idx[1]].Build()
+			defer runtime.KeepAlive(a)
+			defer runtime.KeepAlive(b)
 			op := binOps[idx[2]]
 			r := op.Static(a.B, b.B)
 			op.InPlace(a.B, b.B)
@@ -96,6 +100,7 @@ func runC14(c *Ctx) {
 	p3 := &explore.Product{Name: "results of AddOffset64 / Flip", Dims: []int{len(corpus), len(offs)}, Deadline: c.Budget(75, 1100),
 		Run: func(idx []int) (string, *ev.Fail) {
 			b := corpus[idx[0]].Build()
+			defer runtime.KeepAlive(b)
 			if len(b.M.Keys()) > 20 {
 				return "skipped-many-chunks", nil
 			}
